@@ -26,7 +26,8 @@ import (
 
 func init() {
 	register("C20", "histories of API calls (constructors, accessors, operation methods, ValueSet/PathSet/Path/Walk) interleaved with caller mutations of every Go object passed in or handed back; "+
-		"scripted aliasing scenarios (every accessor/constructor x mutation of its result/argument) + random histories; purity repeats; thorough: -race worker with 2-16 goroutines. "+
+		"scripted aliasing scenarios (every accessor/constructor x mutation of its result/argument) + random histories; purity repeats; thorough: -race worker with 2-16 goroutines "+
+		"(the -race runs SUPPORT the model's write sets — API calls write only what they allocate — under the schedules that occurred; they are not a proof of race freedom, and the Go memory model is not modelled). "+
 		"non-trivial = history of >= 4 steps with >= 1 caller mutation; distinct = distinct canonical history strings", runC20)
 }
 
